@@ -97,7 +97,7 @@ def run_step_reuse(case, rng):
     cov = {'config': {}}
     viol = []
     kind = rng.choice(['duplicate_defaults', 'duplicate_to_end', 'concatenate_default_target', 'delete_by_index',
-                       'delete_by_regex'])
+                       'delete_by_regex', 'concatenate_selects_nothing'])
     cov['config']['step_reuse/' + kind] = 1
     F = [{'name': 'rid', 'type': 'string'}, {'name': 'x', 'type': 'integer'}]
 
@@ -108,6 +108,8 @@ def run_step_reuse(case, rng):
     step = {'duplicate_defaults': lambda: d.duplicate(),
             'duplicate_to_end': lambda: d.duplicate(duplicate_to_end=True),
             'concatenate_default_target': lambda: d.concatenate({'rid': [], 'x': []}),
+            # a selector that matches no resource (optional resources that are absent): the package passes unchanged
+            'concatenate_selects_nothing': lambda: d.concatenate({'rid': [], 'x': []}, resources='optional_.*'),
             'delete_by_index': lambda: d.delete_resource(0),
             'delete_by_regex': lambda: d.delete_resource('.0')}[kind]()
     cfg = {'kind': kind, 'first': [n for n, _ in p1], 'second': [n for n, _ in p2]}
@@ -121,6 +123,8 @@ def run_step_reuse(case, rng):
             return names + [names[0] + '_copy'], dict(rows, **{names[0] + '_copy': rows[names[0]]})
         if kind == 'concatenate_default_target':
             return ['concat'], {'concat': [r for n in names for r in rows[n]]}
+        if kind == 'concatenate_selects_nothing':
+            return names, rows
         return names[1:], {n: rows[n] for n in names[1:]}
     for label, p in (('first', p1), ('second', p2)):
         got = lab.run([lab.source(n, F, r) for n, r in p] + [step])
